@@ -559,6 +559,249 @@ def run(ctx):
         if rows_str(S)[0] != rows_str(MarkovChain(A).stationary_distributions)[0]:
             ctx.spec_fail("mc_compute_stationary", "differs from MarkovChain(P).stationary_distributions", {"P": Pint.tolist()})
 
+    # ---- argument forms (dtype x container x memory layout x sparse format) + histories ---------------------
+    # Every accepted representation of the same numbers must give the stationary vector of exactly those numbers
+    # (float32 / float16 entries are exact rationals).  Results are kept alive and re-examined at the end.
+    import sys as _sys
+    import warnings as _warnings
+    hist = []            # (label, result array, snapshot at return time)
+
+    def keep(label, x):
+        hist.append((label, x, np.array(x, copy=True)))
+
+    FLOATS = [np.float64, np.float32, np.float16, np.longdouble]
+    INTS = [np.int8, np.int16, np.int32, np.int64, np.uint8, np.uint16, np.uint32, np.uint64, np.bool_]
+
+    def as_passed(F, dt):
+        """the float64 array of the values that an array of dtype dt actually holds for the rational matrix F"""
+        return np.array([[float(v) for v in row] for row in F], dtype=float).astype(dt).astype(float)
+
+    def layouts(arr, floats_only_matrix=True):
+        """name -> builder() of an object holding exactly arr's values (rebuilt for every call)"""
+        nloc = arr.shape[0]
+
+        def strided():
+            big = np.zeros((2 * nloc, 3 * nloc), dtype=arr.dtype)
+            big[::2, ::3] = arr
+            return big[::2, ::3]
+
+        def negstride():
+            return np.ascontiguousarray(arr[::-1, ::-1])[::-1, ::-1]
+
+        def readonly():
+            r = arr.copy()
+            r.flags.writeable = False
+            return r
+        d = {"C": lambda: np.array(arr, order="C"), "F": lambda: np.array(arr, order="F"),
+             "strided": strided, "negstride": negstride, "Tview": lambda: np.ascontiguousarray(arr.T).T,
+             "readonly": readonly, "list": lambda: arr.tolist(), "tuple": lambda: tuple(map(tuple, arr.tolist()))}
+        if arr.dtype.kind == "f" and arr.dtype != np.longdouble:
+            d["matrix"] = lambda: np.matrix(arr)
+        return d
+
+    def run_gth_forms(V, arr, tagdt, nforms):
+        """V: float64 values as passed; arr: the same values in the dtype under test"""
+        n = V.shape[0]
+        F = frm(V)
+        classes, _ = rec_classes(F)
+        lay = layouts(arr)
+        names = ["C"] + rng.sample([k for k in lay if k != "C"], min(nforms, len(lay) - 1))
+        first = None
+        for name in names:
+            for ow in (False, True):
+                if ow and name == "readonly":
+                    continue
+                for jit in (True, False):
+                    obj = lay[name]()
+                    snap = np.array(obj, copy=True) if isinstance(obj, np.ndarray) else None
+                    with _warnings.catch_warnings():
+                        _warnings.simplefilter("ignore")
+                        x = gth_solve(obj, overwrite=ow, use_jit=jit)
+                    what = "gth_solve(<%s %s>, overwrite=%s, use_jit=%s)" % (tagdt, name, ow, jit)
+                    ctx.count("forms:gth:%s" % tagdt)
+                    ctx.count("forms:gth-layout:%s" % name)
+                    if not (isinstance(x, np.ndarray) and x.dtype == np.float64 and x.shape == (n,)):
+                        ctx.spec_fail("gth_solve_forms", "%s: result is not a float64 vector of length n" % what,
+                                      {"A": fxm(V), "dtype": tagdt, "layout": name})
+                        continue
+                    sup = [i for i in range(n) if float(x[i]) != 0]
+                    cl = next((c for c in classes if c == sup), None)
+                    why = ("support %s is not a recurrent class %s" % (sup, classes)) if cl is None else \
+                        check_row(x, F, cl, exact_null(F, cl), thm_tol(n) if jit else tol_for(n))
+                    if why:
+                        ctx.spec_fail("gth_solve_forms", "%s: %s" % (what, why),
+                                      {"op": what, "A_values_as_passed": fxm(V), "A_float": V.tolist(), "dtype": tagdt,
+                                       "layout": name, "overwrite": ow, "use_jit": jit, "x": list(map(float, x))})
+                    if snap is not None and not ow and not np.array_equal(snap, np.asarray(obj)):
+                        ctx.spec_fail("gth_argument_modified", "%s modified its argument" % what,
+                                      {"A": fxm(V), "dtype": tagdt, "layout": name})
+                    if isinstance(obj, np.ndarray) and np.shares_memory(x, obj):
+                        ctx.spec_fail("results_share_memory", "%s: the result shares memory with the argument" % what,
+                                      {"A": fxm(V), "dtype": tagdt, "layout": name})
+                    keep(what, x)
+                    if first is None:
+                        first = x
+                    if not ow and name == "C":
+                        cases.append(Case("C02 gth n=%d jit=%d A=%s" % (n, int(jit), fxm(V)), fxs(x), nontrivial=n >= 3,
+                                          cmp=mk_gth_cmp(ctx, n, int(jit)), tag="gth:forms:" + tagdt))
+
+    def sparse_forms(arr):
+        d = {}
+        for fmt in ("csr", "csc", "coo", "lil", "dok", "bsr", "dia"):
+            d[fmt + "_matrix"] = (lambda fmt=fmt: getattr(sp, fmt + "_matrix")(arr))
+            d[fmt + "_array"] = (lambda fmt=fmt: getattr(sp, fmt + "_array")(arr))
+
+        def csr_i64():
+            S = sp.csr_matrix(arr)
+            S.indices = S.indices.astype(np.int64)
+            S.indptr = S.indptr.astype(np.int64)
+            return S
+        d["csr_int64idx"] = csr_i64
+        return d
+
+    def run_mc_forms(V, arr, tagdt, ndense, nsparse):
+        n = V.shape[0]
+        F = frm(V)
+        classes, _ = rec_classes(F)
+        pis = [exact_null(F, c) for c in classes]
+        lay = layouts(arr)
+        lay.pop("readonly", None)
+        builders = [("dense:" + k, lay[k]) for k in ["C"] + rng.sample([k for k in lay if k != "C"], min(ndense, len(lay) - 1))]
+        if arr.dtype != np.float16 and arr.dtype != np.longdouble:
+            spf = sparse_forms(arr)
+            builders += [("sparse:" + k, spf[k]) for k in rng.sample(sorted(spf), min(nsparse, len(spf)))]
+        first = True
+        for name, b in builders:
+            obj = b()
+            with _warnings.catch_warnings():
+                _warnings.simplefilter("ignore")
+                if rng.random() < 0.25:
+                    S = mc_compute_stationary(obj)
+                    mc = None
+                    name += ":mc_compute_stationary"
+                else:
+                    mc = MarkovChain(obj)
+                    S = mc.stationary_distributions
+            ctx.count("forms:mc:%s" % tagdt)
+            ctx.count("forms:mc-form:%s" % name.split(":")[1])
+            what = "MarkovChain(<%s %s>).stationary_distributions" % (tagdt, name)
+            replay = {"op": what, "P_values_as_passed": fxm(V), "P_float": V.tolist(), "dtype": tagdt, "form": name,
+                      "got": np.asarray(S).tolist()}
+            s_, rows = rows_str(S)
+            if not (isinstance(S, np.ndarray) and S.dtype == np.float64 and S.ndim == 2 and S.shape[1] == n
+                    and len(rows) == len(classes)):
+                ctx.spec_fail("stationary_distributions_forms", "%s: %d rows for recurrent classes %s" % (
+                    what, len(rows), classes), replay)
+                continue
+            for x, c, pi in zip(rows, classes, pis):
+                why = check_row(x, F, c, pi, thm_tol(len(c)))
+                if why:
+                    ctx.spec_fail("stationary_distributions_forms", "%s: %s" % (what, why), replay)
+                    break
+            keep(what, S)
+            hist_keepalive.append(mc)
+            if first:
+                first = False
+                cases.append(Case("C02 stat n=%d P=%s" % (n, fxm(V)), s_, nontrivial=n >= 3,
+                                  cmp=mk_stat_cmp(ctx, n), tag="stat:forms:" + tagdt))
+
+    hist_keepalive = []
+    for it in range(ctx.n(40, 300)):
+        n = rng.randint(2, nmax) if it % 4 else rng.randint(2, 3)
+        dt = FLOATS[it % 4] if it % 3 else np.float32
+        style = "dyadic" if dt in (np.float16, np.longdouble) else rng.choice(["dyadic", "int", "int", "tiny"])
+        Fr, _, _ = g.chain(n, style=style, nclasses=rng.choice([1, 1, 2, 3]))
+        V = as_passed(Fr, dt)
+        arr = V.astype(dt)
+        run_gth_forms(V, arr, dt.__name__, ctx.n(2, 4))
+        run_mc_forms(V, arr, dt.__name__, ctx.n(2, 4), ctx.n(3, 6))
+        if it % 3 == 0:                       # a generator / Metzler matrix in the same dtype
+            Mz = as_passed(g.metzler(n), dt)
+            run_gth_forms(Mz, Mz.astype(dt), dt.__name__, ctx.n(1, 3))
+    for it in range(ctx.n(27, 180)):
+        n = rng.randint(2, nmax)
+        dt = INTS[it % len(INTS)]
+        # 0/1 stochastic matrix of a random map (cycles = recurrent classes, tails transient)
+        fmap = [rng.randrange(n) for _ in range(n)]
+        V = np.zeros((n, n))
+        for i_, j_ in enumerate(fmap):
+            V[i_, j_] = 1.0
+        run_mc_forms(V, V.astype(dt), dt.__name__, ctx.n(2, 3), ctx.n(2, 5))
+        # integer Metzler matrix (non-negative off-diagonals, diagonal 0 for unsigned / bool)
+        hi = 1 if dt is np.bool_ else 9
+        W = np.array([[0 if i_ == j_ else (rng.randint(1, hi) if rng.random() < 0.5 else 0) for j_ in range(n)]
+                      for i_ in range(n)], dtype=float)
+        if dt not in (np.bool_,) and np.dtype(dt).kind == "i":
+            np.fill_diagonal(W, [-rng.randint(0, 20) for _ in range(n)])
+        run_gth_forms(W, W.astype(dt), dt.__name__, ctx.n(2, 3))
+
+    # histories: in-place solves of equal size, through every route, results held by the caller
+    for it in range(ctx.n(12, 60)):
+        n = rng.randint(2, min(5, nmax))
+        mats = []
+        while len(mats) < 3:
+            Fr, _, _ = g.chain(n, style="dyadic", nclasses=1)
+            if rec_classes(Fr)[0] == [list(range(n))]:        # irreducible
+                mats.append(to_np(Fr))
+        x1 = gth_solve(mats[0].copy(), overwrite=True)
+        keep("history: gth_solve(A1, overwrite=True) n=%d" % n, x1)
+        mc1 = MarkovChain(sp.csr_matrix(mats[1]))
+        keep("history: MarkovChain(csr irreducible n=%d).stationary_distributions" % n, mc1.stationary_distributions)
+        hist_keepalive.append(mc1)
+        x2 = gth_solve(mats[2].copy(), overwrite=True, use_jit=False)
+        keep("history: gth_solve(A2, overwrite=True, use_jit=False) n=%d" % n, x2)
+        # a reducible chain with a recurrent class of exactly n states (dense and sparse)
+        big = np.zeros((n + 2, n + 2))
+        big[:n, :n] = mats[0]
+        big[n, n] = 1.0
+        big[n + 1, 0] = 0.5
+        big[n + 1, n] = 0.5
+        for form in (big, sp.csr_matrix(big)):
+            mc2 = MarkovChain(form)
+            keep("history: MarkovChain(reducible with a class of %d states).stationary_distributions" % n,
+                 mc2.stationary_distributions)
+            hist_keepalive.append(mc2)
+        mc3 = MarkovChain(sp.csr_matrix(mats[2]))
+        keep("history: second sparse irreducible chain n=%d" % n, mc3.stationary_distributions)
+        hist_keepalive.append(mc3)
+        for xa, Aa, lab in ((x1, mats[0], "x1"), (x2, mats[2], "x2"), (mc1.stationary_distributions[0], mats[1], "mc1"),
+                            (mc3.stationary_distributions[0], mats[2], "mc3")):
+            Fa = frm(Aa)
+            why = check_row(xa, Fa, list(range(n)), exact_null(Fa, list(range(n))), tol_for(n))
+            if why:
+                ctx.spec_fail("result_changed_later", "history n=%d: %s held by the caller is no longer the stationary vector of "
+                              "its matrix after later solves: %s" % (n, lab, why),
+                              {"n": n, "which": lab, "A": fxm(Aa), "now": list(map(float, xa))})
+        ctx.count("history:sequences")
+
+    # every result ever returned (this section and do_gth's `outs` are still referenced): unchanged, disjoint, private
+    for label, x, snapv in hist:
+        if not np.array_equal(bits_of(np.ascontiguousarray(x)), bits_of(np.ascontiguousarray(snapv))):
+            ctx.spec_fail("result_changed_later", "a returned result was rewritten by a later call: %s" % label,
+                          {"label": label, "at_return": snapv.tolist(), "now": np.asarray(x).tolist()})
+    ivals = sorted(((x.__array_interface__["data"][0], x.__array_interface__["data"][0] + x.nbytes, k)
+                    for k, (label, x, _) in enumerate(hist) if x.nbytes), key=lambda t: t[0])
+    for (a0, a1, ka), (b0, b1, kb) in zip(ivals, ivals[1:]):
+        if b0 < a1 and hist[ka][1] is not hist[kb][1] and np.shares_memory(hist[ka][1], hist[kb][1]):
+            ctx.spec_fail("results_share_memory", "two results returned by different calls share memory: %s / %s" % (
+                hist[ka][0], hist[kb][0]), {"a": hist[ka][0], "b": hist[kb][0]})
+    ctx.count("history:results-held", len(hist))
+    modstate = []
+    for modname in ("quantecon.markov.gth_solve", "quantecon.markov.core"):
+        for nm, val in list(vars(_sys.modules[modname]).items()):
+            vals = [val] if isinstance(val, np.ndarray) else (
+                list(val.values()) if isinstance(val, dict) else (list(val) if isinstance(val, (list, tuple, set)) else []))
+            for v in vals:
+                if isinstance(v, np.ndarray):
+                    modstate.append((modname + "." + nm, v))
+    for nm, v in modstate:
+        for label, x, _ in hist:
+            if np.may_share_memory(x, v) and np.shares_memory(x, v):
+                ctx.spec_fail("result_aliases_module_state", "a returned result shares memory with module state %s: %s" % (nm, label),
+                              {"module_attr": nm, "label": label})
+                break
+    ctx.count("history:module-arrays-scanned", len(modstate))
+
     # ---- malformed -------------------------------------------------------------------------------------
     def err_of(f):
         try:
